@@ -496,6 +496,39 @@ def e2e_job(job):
             elif not (got == value or rs.same(got, value)):
                 sub = "|eco-switch-via-settings-block" if (fam == "ES" and sid.endswith("_switch")) else ""
                 acc.fail("C17|%s|%s|readback-differs%s" % (fam, tn, sub), "e2e: read_setting(%r) = %r after writing %r" % (sid, got, value), case)
+            # two writes of a one-byte setting back to back (no read in between) while a second master / the vendor app changed
+            # the OTHER half of the shared register between them: the second write must keep what is there NOW
+            if setting.size_ == 1:
+                own_mask = 0xFF00 if tn == "ByteH" else 0x00FF
+                for (w0, v1, w1, v2) in ((0x007F, -1, 0x0015, 0), (0x7F00, 5, 0x1500, -1), (0x1234, 0, 0xFFFF, 1), (0x0000, -1, 0x5AA5, -1)):
+                    inv = siminv.make_inverter(fam, tcp, T=1, R=1)
+                    _, sim = siminv.build_direct(dict(cfg), default=lambda a: mix(seed + 1, a) & 0xFFFF)
+                    set_prior(sim, setting, w0)
+                    get = reg_view(sim, setting)[0]
+                    peer = ScriptedPeer(siminv.responder_for(inv, sim), [], default=("answer", 0.0))
+                    loop = VLoop(World(peer))
+                    acc.case()
+                    acc.nontrivial("e2e-two-writes", variant, sid, tcp, w0, v1, w1, v2)
+                    case = {"e2e": True, "two_writes": [w0, v1, w1, v2], "variant": variant, "setting": sid, "tcp": tcp, "seed": seed}
+
+                    async def main2():
+                        await inv.read_device_info()
+                        await inv.write_setting(sid, v1)
+                        # keep the own half as written, replace the other half (what another master would do)
+                        set_prior(sim, setting, (get(setting.offset) & own_mask) | (w1 & ~own_mask & 0xFFFF))
+                        await inv.write_setting(sid, v2)
+
+                    out = loop.run(main2())
+                    loop.idle()
+                    loop.shutdown()
+                    if out.hang is not None or out.exc is not None:
+                        acc.fail("C17|%s|%s|e2e|two-writes-failed" % (fam, tn), "write, external change, write: %r %r" % (out.hang, out.exc), case)
+                        continue
+                    now = get(setting.offset)
+                    want = (((v2 & 0xFF) << 8) if tn == "ByteH" else (v2 & 0xFF)) | (w1 & ~own_mask & 0xFFFF)
+                    if now != want:
+                        acc.fail("C17|%s|%s|e2e|other-half-changed" % (fam, tn), "write_setting(%r, %d); the other half of the shared register is then changed "
+                                 "externally; write_setting(%r, %d): the register holds %04x, expected %04x" % (sid, v1, sid, v2, now, want), case)
     return acc
 
 
